@@ -42,7 +42,7 @@ def seeds():
         if rs.get("kind") == "failing-input":
             how = "oracle: " + esc(str(rs.get("desc")))[:200]
         elif rs.get("kind") == "broken-tie":
-            how = "broken tie: " + esc(", ".join(rs.get("broken") or []))[:200]
+            how = "broken tie: " + esc(", ".join((b.get("what", "") if isinstance(b, dict) else str(b)) for b in (rs.get("broken") or [])))[:200]
         note = notes.get(os.path.basename(os.path.dirname(f)), "")
         rows.append("| %s | %s | %s | %s | %s |" % (
             os.path.basename(os.path.dirname(f)), esc(str(m.get("summary", "")))[:260], esc(str(m.get("needs", "")))[:220],
